@@ -324,7 +324,21 @@ func (r *Route) copyWithParams(ps Params) *Route {
 	var nr = *r
 	nr.regex = nil
 	nr.matches = nil
-	nr.params = ps
+	// Notice: must copy the params, the given map is also used by the current request context.
+	nr.params = copyParams(ps)
 
 	return &nr
+}
+
+// copyParams copy a params map. the cached params must not be shared with a request context.
+func copyParams(ps Params) Params {
+	if ps == nil {
+		return nil
+	}
+
+	np := make(Params, len(ps))
+	for k, v := range ps {
+		np[k] = v
+	}
+	return np
 }
